@@ -160,7 +160,10 @@ func (h *harness) amplification() {
 			}
 			ctl := runOOMChild(rw.kind, rw.fan, rw.ctlK)
 			if ctl.startErr != nil || ctl.timedOut || ctl.exit != 0 || !strings.Contains(ctl.out, "CHILD-RESULT tree") {
-				c.Inconclusive(fmt.Sprintf("group H control child (small input, same limit) did not finish: exit=%d timedOut=%v err=%v out=%q", ctl.exit, ctl.timedOut, ctl.startErr, ctl.out))
+				// the limit, not the parser, would be what is observed: this input is not judged in this run
+				// (min_observed keeps a run with too few judged inputs inconclusive)
+				st.count["amplification_control_child_failed_input_not_judged"]++
+				c.Done("amplification/"+rw.kind+"/control-failed", false)
 				return
 			}
 			st.count["amplification_control_children_ok"]++
@@ -169,7 +172,9 @@ func (h *harness) amplification() {
 			shape := "amplification/" + rw.kind
 			switch {
 			case res.startErr != nil || res.timedOut || !strings.Contains(res.out, "CHILD-START"):
-				c.Inconclusive(fmt.Sprintf("group H child did not run to an end: timedOut=%v err=%v out=%q", res.timedOut, res.startErr, res.out))
+				// the child never got to the parser (or the watchdog fired): nothing was observed
+				st.count["amplification_child_not_started_or_watchdog_input_not_judged"]++
+				c.Done(shape+"/not-run", false)
 				return
 			case strings.Contains(res.out, "CHILD-RESULT error"):
 				st.count["amplification_answered_with_error"]++
